@@ -126,7 +126,7 @@ def wire(o):
         if x is False:
             return "F"
         if isinstance(x, int):
-            return "i%d" % x
+            return ("h%x" % x) if abs(x) >= 10 ** 4000 else "i%d" % x
         return "s" + enc(x)
 
     def go(x):
@@ -160,7 +160,9 @@ def unwire(text):
         if t == "F":
             return False
         if t[0] == "i":
-            return int(t[1:])
+            return int_from_dec(t[1:])
+        if t[0] == "h":
+            return int(t[1:], 16)
         return dec(t[1:])
 
     def go():
@@ -194,7 +196,7 @@ def to_json(o):
     if isinstance(o, bool):
         return {"b": o}
     if isinstance(o, int):
-        return {"i": str(o)}
+        return {"ih": "%x" % o} if abs(o) >= 10 ** 4000 else {"i": str(o)}
     return {"s": o}
 
 
@@ -209,6 +211,8 @@ def from_json(j):
         return bool(j["b"])
     if "i" in j:
         return int(j["i"])
+    if "ih" in j:
+        return int(j["ih"], 16)
     return j["s"]
 
 
@@ -3084,10 +3088,226 @@ def replay_real(c):
     return f is not None
 
 
+# ---- integers at and beyond Python's int -> str digit limit (str(n) raises ValueError for |n| >= 10**4300)
+
+BIG_DIGITS = 4000          # from here on the harness itself never uses str()/int() on the integer
+
+
+def int_from_dec(s):
+    """int(s) without the interpreter's digit limit"""
+    neg = s.startswith("-")
+    if neg:
+        s = s[1:]
+    if len(s) <= BIG_DIGITS:
+        v = int(s)
+    else:
+        v = int_from_dec(s[:-2000]) * 10 ** 2000 + int(s[-2000:])
+    return -v if neg else v
+
+
+def is_big(n):
+    return isinstance(n, int) and not isinstance(n, bool) and abs(n) >= 10 ** BIG_DIGITS
+
+
+def int_tag(n):
+    """short printable identity of an integer (for keys, counts and messages)"""
+    h = "%x" % n
+    return h if len(h) <= 40 else "%s..%s(%d hex digits, sha %s)" % (h[:8], h[-6:], len(h.lstrip("-")), hashlib.sha256(h.encode()).hexdigest()[:10])
+
+
+BIG_PLACES = ["value", "item", "last-item", "nested", "key", "excluded", "top-key"]
+
+
+def big_plain(n, place):
+    t = {"value": {"x": n}, "item": ["k", n, "k"], "last-item": [n], "nested": {"x": {"y": [n]}}, "key": {n: "v"}}.get(place, "t")
+    p = {"name": "k", "hosts": "all", "vars": {EXCL: "/hosts,/vars/insights_signature", SIG: "UExBQ0VIT0xERVI="}, "tasks": [t]}
+    if place == "excluded":
+        p["hosts"] = {"a": [n]}
+    if place == "top-key":
+        p[n] = "v"
+    return p
+
+
+def big_cleaned(p):
+    q = dict((k, v) for k, v in p.items() if k != "hosts")
+    q["vars"] = dict((k, v) for k, v in p["vars"].items() if k != SIG)
+    return q
+
+
+def big_text(lit, place):
+    if place == "excluded":
+        return SCALAR_HEAD.replace("hosts: all\n", "hosts:\n    a: [%s]\n" % lit) + "    - t\n"
+    if place == "top-key":
+        return SCALAR_HEAD + "    - t\n  %s: v\n" % lit
+    return scalar_text(lit, place)
+
+
+def big_ints(rng, quick):
+    """[(label, integer, sibling or None)]: sibling = the decimal integer whose digits are the hex / octal digits of the integer"""
+    out = []
+    L = 10 ** 4300
+    for lab, n in (("limit-1", L - 1), ("limit", L), ("limit+1", L + 1), ("-limit+1", -(L - 1)), ("-limit", -L)):
+        out.append((lab, n, None))
+    for d in (4299, 4300, 4301, 5000):
+        out.append(("%d-digits" % d, 10 ** (d - 1) + rng.randrange(10 ** 50), None))
+    ks = [3500, 3571, 3572, 3600, 4300] if quick else [3500, 3550, 3571, 3572, 3573, 3600, 3800, 4000, 4299, 4300]
+    for k in ks:
+        for dg in ("1", "9", None):
+            ds = dg * k if dg else "".join(rng.choice("0123456789") for _ in range(k - 1)) + "7"
+            ds = ds.lstrip("0") or "1"
+            out.append(("hex-decimal-digits-%d-%s" % (k, dg or "mixed-decimal"), int(ds, 16), int_from_dec(ds)))
+        hx = rng.choice("123456789abcdef") + "".join(rng.choice("0123456789abcdef") for _ in range(k - 1))
+        out.append(("hex-%d" % k, int(hx, 16), None))
+    out.append(("-hex-3600-ones", -int("1" * 3600, 16), -int_from_dec("1" * 3600)))
+    out.append(("octal-sevens-4790", int("7" * 4790, 8), int_from_dec("7" * 4790)))
+    out.append(("octal-ones-4300", int("1" * 4300, 8), int_from_dec("1" * 4300)))
+    out.append(("binary-14300", int("1" + "01" * 7150, 2), None))
+    return out
+
+
+def big_eval_object(p, kind):
+    obj = to_kind(p, kind)
+    a1, d1, raw = impl_excl(obj)
+    a2, d2 = impl_vplay(obj)
+    return a1, (a2 if a2 != "ok" else "ok\t" + binascii.hexlify(d2).decode()), raw
+
+
+def big_eval_text(text):
+    try:
+        plays = pv.load_playbook_yaml(text)
+    except pv.PlaybookVerificationError:
+        return "load-verr", "load-verr", None
+    except Exception as e:
+        return "load-crash", "load-crash", None
+    if not isinstance(plays, list) or len(plays) != 1:
+        return "not-one-play", "not-one-play", None
+    a1, d1, raw = impl_excl(plays[0])
+    a2, d2 = impl_vplay(plays[0])
+    return a1, (a2 if a2 != "ok" else "ok\t" + binascii.hexlify(d2).decode()), raw
+
+
+def big_readback(raws):
+    """[(raw bytes, expected cleaned plain play)] -> failure texts: the text must decode (model's decoder) to exactly that play"""
+    if not raws:
+        return []
+    out = run_driver("C18", ["decv\t" + enc(r.decode("utf-8", "replace")) for r, _ in raws])
+    fails = []
+    for (r, want), g in zip(raws, out):
+        f = g.split("\t")
+        ok = False
+        if f[0] == "some" and len(f) == 3 and f[2] == "-":
+            try:
+                ok = canon(unwire(f[1])) == canon(want)
+            except Exception:
+                ok = False
+        fails.append(None if ok else "the serialisation does not read back as the play it was made from (an integer is written so that it reads as another value): ...%r" % r[-70:])
+    return fails
+
+
+def run_bigint(chk, quick):
+    rng = chk.rng
+    cases, impl, lines = [], [], []
+    pools = {}
+    readback = []
+    for lab, n, sib in big_ints(rng, quick):
+        for place in BIG_PLACES:
+            group = [(n, lab)] + ([(sib, lab + "/decimal-sibling")] if sib is not None else [])
+            for m, mlab in group:
+                p = big_plain(m, place)
+                runs = [("object:" + k, big_eval_object(p, k)) for k in (["ruamel", "plain"] if m is n else ["ruamel"])]
+                if m is n:
+                    lits = [("hex", ("-0x%x" % -m) if m < 0 else "0x%x" % m)]
+                    if "octal" in lab:
+                        lits = [("octal", "0o%o" % m)]
+                    if "binary" in lab:
+                        lits = [("binary", "0b" + format(m, "b"))]
+                    if abs(m) < 10 ** 4300:
+                        lits.append(("decimal", str(m)))
+                    for ll, lit in lits:
+                        r = big_eval_text(big_text(lit, place))
+                        if r[0] in ("load-verr",):
+                            chk.count("digit-limit:text-%s/%s/load refused" % (ll, place))
+                            continue
+                        runs.append(("text:" + ll, r))
+                line = "evg\t%s\t%s" % (bad_sigs(p), wire(p))
+                for via, (a1, a2, raw) in runs:
+                    key = ("bigint", mlab, place, via)
+                    chk.case(key, a1.startswith("ok"))
+                    beyond = abs(m) >= 10 ** 4300
+                    chk.count("digit-limit:%s/%s/%s -> %s" % ("beyond" if beyond else "below", place, via.split(":")[0], a1.split("\t")[0]))
+                    case = {"op": "bigint", "label": mlab, "int": "%x" % m, "place": place, "via": via}
+                    if a1.split("\t")[0] not in ("ok", "verr", "crash"):
+                        chk.failure("digit limit: the play with the integer %s as %s (%s) ended as %s" % (int_tag(m), place, via, a1[:30]), case)
+                    if raw is not None and place == "excluded":
+                        readback.append((raw, big_cleaned(p), case, m, place, via))     # the integer is not under the digest
+                    elif raw is not None:
+                        other = pools.setdefault(place, {}).get(raw)
+                        if other is None:
+                            pools[place][raw] = (m, mlab, via)
+                        elif other[0] != m:
+                            chk.failure("digit limit: two plays that differ in one integer (%s: %s and %s: %s, as %s) have the same serialisation ...%r"
+                                        % (other[1], int_tag(other[0]), mlab, int_tag(m), place, raw[-60:]),
+                                        {"op": "bigint-pair", "a": "%x" % other[0], "b": "%x" % m, "place": place, "via_a": other[2], "via_b": via})
+                        readback.append((raw, big_cleaned(p), case, m, place, via))
+                    cases.append({"label": mlab, "place": place, "via": via})
+                    impl.append(a1 + ";" + a2)
+                    lines.append(line)
+    rb = big_readback([(r, w) for r, w, _, _, _, _ in readback])
+    for (r, w, case, m, place, via), f in zip(readback, rb):
+        if f:
+            chk.failure("digit limit: integer %s as %s (%s): %s" % (int_tag(m), place, via, f), case)
+    uniq = sorted(set(lines))
+    out = dict(zip(uniq, run_driver("C18", uniq)))
+    model = []
+    for l in lines:
+        b = out[l]
+        e, v = b.split(";") if ";" in b else (b, b)
+        f = v.split("\t")
+        v = "ok\t" + hashlib.sha256(dec(f[1]).encode("utf-8")).hexdigest() if f[0] == "ok" else v
+        model.append(e + ";" + v)
+    chk.compare("digit limit: integers of 4299-5000 digits (hex / octal / binary literals, Python ints) at every place = the model with the refusal (excludeSerG / verifyPlayG)",
+                cases, impl, model)
+
+
+def big_replay_one(m, place, via):
+    p = big_plain(m, place)
+    if via.startswith("object:"):
+        return big_eval_object(p, via.split(":")[1]), p
+    ll = via.split(":")[1]
+    lit = {"hex": ("-0x%x" % -m) if m < 0 else "0x%x" % m, "octal": ("-0o%o" % -m) if m < 0 else "0o%o" % m,
+           "binary": "0b" + format(m, "b")}.get(ll)
+    if lit is None:
+        lit = str(m)
+    return big_eval_text(big_text(lit, place)), p
+
+
+def replay_bigint(c):
+    if c["op"] == "bigint":
+        m = int(c["int"], 16)
+        (a1, a2, raw), p = big_replay_one(m, c["place"], c["via"])
+        print("integer %s as %s (%s): exclusion+serialisation %s, verify_play %s" % (int_tag(m), c["place"], c["via"], a1[:12], a2[:24]))
+        if a1.split("\t")[0] not in ("ok", "verr", "crash"):
+            return True
+        if raw is None:
+            print("  refused: no digest")
+            return False
+        f = big_readback([(raw, big_cleaned(p))])[0]
+        print("  " + (f or "the serialisation reads back as the play"))
+        return f is not None
+    a, b = int(c["a"], 16), int(c["b"], 16)
+    ra, _ = big_replay_one(a, c["place"], c["via_a"])
+    rb, _ = big_replay_one(b, c["place"], c["via_b"])
+    same = ra[2] is not None and ra[2] == rb[2]
+    print("integers %s and %s as %s: %s" % (int_tag(a), int_tag(b), c["place"], "the same serialisation" if same else "different serialisations / refused"))
+    return same and a != b
+
+
 def replay_round10(c):
     op = c.get("op")
     if op == "realgpg":
         return replay_real(c)
+    if op in ("bigint", "bigint-pair"):
+        return replay_bigint(c)
     if op == "glue":
         GlueGPG.real_key = pv.PUBLIC_KEY_PATH
         ans, mline, fails = glue_eval(c)
@@ -3485,6 +3705,7 @@ def _run(chk, ref):
     run_scalars(chk, quick)
     run_main2(chk, quick)
     run_real(chk, quick)
+    run_bigint(chk, quick)
 
     # ---------------- regression witnesses of the repaired defect 5a7421c (non-string list, non-mapping vars)
     for c in corpus:
